@@ -17,8 +17,8 @@ CLAIMS = {
  'C03': ("graphLex_tiles: for every graph satisfying the decidable predicate WF (proved checker wfB, run on every captured graph) and every input, lexing terminates, items are non-empty, strictly increasing, inside the input and end at its length; win_none + Valid: an accepted (validated) definition has no nullable pattern; every corpus definition with a nullable leaf (Lean nullable on the captured HIR) must be rejected by the real derive; tiling predicate applied directly to every stream of the compiled lexers.",
          "graphLex_tiles_bump / partial_tiles_bump extend the tiling theorem to callbacks that bump within the remainder they are handed (BumpOK; zooCallback_bumpOK: the zoo's callbacks satisfy it); a bump that Lexer::bump rejects (out of range or inside a code point) is a panic and belongs to C15.",
          "Lean theorem over all well-formed graphs + proved WF checker + correspondence"),
- 'C04': ("spans_on_boundaries: validated definition + every pattern's language within valid UTF-8 (proved checker utf8ClosedB, product of derivatives with the UTF-8 framing automaton, run on every leaf) + valid input => every item boundary is a char boundary; match_end_is_boundary; runner checks span/slice/remainder against is_char_boundary on every stream.",
-         "subpattern-level acceptance is exercised by the malformed stream of C12/C19; bumping callbacks belong to C15.",
+ 'C04': ("spans_on_boundaries: validated definition + every pattern's language within valid UTF-8 (proved checker utf8ClosedB, product of derivatives with the UTF-8 framing automaton, run on every leaf) + valid input => every item boundary is a char boundary; look-around definitions: spans_on_boundariesC with the contextual closure checker utf8ClosedCB (product of contextual derivatives with the framing automaton over every context); match_end_is_boundary; runner checks span/slice/remainder against is_char_boundary on every stream.",
+         "acceptance is checked position by position (regex, token, skip in three spellings, subpattern used / unused / completed to a valid whole): every family definition written to match invalid UTF-8 must be rejected; the contextual closure check is sound but not complete (an undecided look-around leaf is covered by the runner-side boundary predicate only); bumping callbacks belong to C15.",
          "Lean theorem + proved UTF-8 closure checker + correspondence"),
  'C05': ("readChunk_some_iff / readSafe_eq_readChunk (the two builds of Source::read are one function), attemptI_reads_in_bounds (every read of every attempt on every graph hits iff inside the source), graphLex_tiles (spans within the source); default vs forbid_unsafe streams identical on inputs presented as prefixes of longer allocations; real read traces checked; direct Source::read differential in debug and release.",
          "raw pointer arithmetic is modelled by its guard, not verified.",
